@@ -19,7 +19,7 @@ from leanio import dec_str
 from main import Result
 
 HEALTHY = ["a.txt", "b.txt", "c dir", "m.html", "z.bin"]
-FAULTS = ["dangling", "fifo", "socket", "vanish", "dotdot..name", "dot.\\bs", "back\\\\slash", ".dangling", ".fifo", "loop", "gone.html", "noperm.html"]
+FAULTS = ["dangling", "fifo", "socket", "vanish", "dotdot..name", "dot.\\bs", "back\\\\slash", ".dangling", ".fifo", "loop", "gone.html", "noperm.html", "dangling.pyg", "vanish.pyg", "loop.zip"]
 OPEN_FAULTS = ("gone.html", "noperm.html")     # stat succeeds, the open that follows fails (deleted in between / not readable)
 
 
@@ -48,6 +48,15 @@ def plant(tree, d, fault):
         s.bind(os.fsdecode(os.path.join(base, b"socket")))
         s.close()
         return "socket"
+    if fault == "dangling.pyg":
+        os.symlink("nowhere-to-be-found.pyg", os.path.join(base, b"dangling.pyg"))
+        return fault
+    if fault == "loop.zip":
+        os.symlink("loop.zip", os.path.join(base, b"loop.zip"))
+        return fault
+    if fault == "vanish.pyg":
+        tree.write(d + "/vanish.pyg", b"# soon gone\n")
+        return fault
     if fault in OPEN_FAULTS:
         tree.write(d + "/" + fault, b"<html><head><title>Page that cannot be opened</title></head></html>")
         return fault
@@ -66,7 +75,7 @@ class vanishing:
 
         def fake(path, *a, **k):
             p = os.fsencode(path) if not isinstance(path, int) else b""
-            if p.endswith(b"/vanish"):
+            if p.endswith(b"/vanish") or p.endswith(b"/vanish.pyg"):
                 raise FileNotFoundError(2, "No such file or directory")
             return self.orig(path, *a, **k)
         os.stat = fake
@@ -118,8 +127,10 @@ def run(ctx):
                         tree.write(d + "/" + n, b"content\n")
                 tree.write(d + "/a.txt.abstract", b"abstract of a\n")
             planted = [plant(tree, "f", f) for f in faults]
-            for hname, handlers, umn in (("umn", None, True), ("dir", pyg.DIR_HANDLERS, False)):
-                cfg = pyg.make_config(tree.root, handlers, **{"handlers.dir.DirHandler|cachetime": "0"})
+            for hname, handlers, umn in (("umn", None, True), ("dir", pyg.DIR_HANDLERS, False), ("full", pyg.FULL_HANDLERS, True)):
+                if hname == "full" and not (ci % 3 == 0 or any(f.endswith((".pyg", ".zip")) for f in faults)):
+                    continue      # the full list (ZIP, TAL, PYG, scripts, decompression) on a third of the combinations and on its own file types
+                cfg = pyg.make_config(tree.root, handlers, **{"handlers.dir.DirHandler|cachetime": "0", "handlers.ZIP.ZIPHandler|enabled": "true"})
                 for view, gplus in listing.VIEWS:
                     rows_h, rh = listing.real_rows(view, gplus, cfg, "/h")
                     with vanishing():
@@ -141,7 +152,7 @@ def run(ctx):
                         # which healthy entries are missing?
                         res.violation("C12:entries-lost:" + hname, "the listing with an unservable entry differs from the listing without it", inp,
                                       observed=got[:400], required=want[:400], replay=rp)
-                    if view == "gopher" and not gplus and not any(f in OPEN_FAULTS for f in faults):
+                    if view == "gopher" and not gplus and hname != "full" and not any(f in OPEN_FAULTS for f in faults):
                         names = sorted(os.fsdecode(x) for x in os.listdir(tree.path("f")))
                         with vanishing():
                             model_lines.append(dirmodel.request(tree, cfg, "/f", names, umn=umn))
@@ -171,7 +182,8 @@ def replay(data):
                 tree.write("f/" + n, b"content\n")
         for f in rp["faults"]:
             plant(tree, "f", f)
-        cfg = pyg.make_config(tree.root, pyg.DIR_HANDLERS if rp["handler"] == "dir" else None, **{"handlers.dir.DirHandler|cachetime": "0"})
+        cfg = pyg.make_config(tree.root, {"dir": pyg.DIR_HANDLERS, "full": pyg.FULL_HANDLERS}.get(rp["handler"]),
+                              **{"handlers.dir.DirHandler|cachetime": "0", "handlers.ZIP.ZIPHandler|enabled": "true"})
         with vanishing():
             rows, r = listing.real_rows(rp["view"], rp["gplus"], cfg, "/f")
         print(r.out)
